@@ -311,6 +311,15 @@ def local_aliases(func, pure_only=False):
         if name in params or len(nodes) != 1:
             continue
         n = nodes[0]
+        # a, b = x, y   (same-length tuple assignment): element-wise aliases
+        if isinstance(n, ast.Assign) and len(n.targets) == 1 and isinstance(n.targets[0], (ast.Tuple, ast.List)) \
+                and isinstance(n.value, (ast.Tuple, ast.List)) and len(n.value.elts) == len(n.targets[0].elts):
+            for t, v in zip(n.targets[0].elts, n.value.elts):
+                if isinstance(t, ast.Name) and t.id == name and _aliasable(v) and not any(
+                        isinstance(x, ast.Name) and x.id == name for x in ast.walk(v)):
+                    if not pure_only or _is_pure_loc(v):
+                        out[name] = v
+            continue
         if isinstance(n, ast.Assign) and len(n.targets) == 1 and isinstance(
                 n.targets[0], ast.Name):
             if pure_only and not _is_pure_loc(n.value):
